@@ -1,6 +1,6 @@
 """C20 Independent exporter/reader instances are safe to use from concurrent threads (sufficient condition)."""
 from .. import ir, callgraph
-from ..ir import path, path_str, unwrap, unwrap_all_casts, callee_name, callee_qn, show
+from ..ir import path, path_str, unwrap, unwrap_all_casts, callee_name, callee_qn, show, const_value
 from ..facts import AnalysisBroken
 
 META = {
@@ -142,6 +142,10 @@ def check(run):
                     if i.get("member") == fld["n"] and i.get("written"):
                         sources.append(i["init"])
                 for src in sources:
+                    u_src = ir.unwrap_all_casts(src)
+                    if isinstance(u_src, dict) and (u_src.get("null") or u_src.get("k") == "NullPtr" or const_value(src) == 0 or const_value(u_src) == 0):
+                        good += 1                 # a null pointer aliases nothing
+                        continue
                     roots = set()
                     for x in ir.walk(src):
                         t = x.get("t") or ""
